@@ -462,10 +462,14 @@ def check_species(ctx):
               and isinstance(n_.targets[0], ast.Subscript) and src(n_.targets[0].value) == 'allparams']
     ok = 'p.getValue()' in stores and 'pid=p.getId()' in txt
     ctx.ob('R13.5-initial-values', 'import_sbml_parameters', ok, ctx.loc('sbmlutil', f), 'global parameters keep their finite values', '')
+    # ... and per path: nothing but the finiteness of the value attribute (and being the variable of an assignment rule) decides it
+    check_parameter_values(ctx, 'R13.5-initial-values', 'import_sbml_parameters/per-path', assignment_targets_free=True)
 
 
-def check_parameter_values(ctx, rule='R13.5-initial-values'):
-    """every global parameter is entered under its id with its value attribute (0.0 only if that is not finite) - on every path"""
+def check_parameter_values(ctx, rule='R13.5-initial-values', key='import_sbml_parameters', assignment_targets_free=False):
+    """every global parameter is entered under its id with its value attribute (0.0 only if that is not finite) - on every path.
+    With assignment_targets_free (C13: a plain document, whose assignment rules are always repeated) a path on which the parameter is known
+    to be the variable of an assignment rule may store anything: the rule overwrites it before it is ever read."""
     from .. import paths
     f = func(ctx, 'import_sbml_parameters')
     loops = [s for s in f.body if isinstance(s, ast.For) and 'getListOfParameters' in src(s.iter)]
@@ -484,7 +488,16 @@ def check_parameter_values(ctx, rule='R13.5-initial-values'):
         tests = {k_(util.canon_test(util.inline(e.node, defs))): e.info for e in p.events if e.kind == 'test'}
         stores = [e.node for e in p.stmts() if isinstance(e.node, ast.Assign) and isinstance(e.node.targets[0], ast.Subscript)
                   and src(e.node.targets[0].value) == 'allparams']
-        fin = [t for t in tests if 'isfinite(%s.getValue())' % v in t]
+        if assignment_targets_free:
+            tgt = [t for t in tests if 'getAssignmentRuleByVariable(' in t and (t.endswith('isnotNone') or t.endswith('is notNone') or t.endswith('isNone'))
+                   and 'and' not in t and 'or' not in t]
+            if any(tests[t] == (not t.endswith('isNone')) for t in tgt):
+                if p.exit in ('fall', 'continue') and [e.node for e in p.stmts() if isinstance(e.node, ast.Assign) and isinstance(e.node.targets[0], ast.Subscript)
+                                                       and src(e.node.targets[0].value) == 'allparams']:
+                    continue        # the variable of an assignment rule: its stored value is never read
+            tests = {t: b for t, b in tests.items() if t not in tgt}
+        core = lambda t: t[3:] if t.startswith('not') else t
+        fin = [t for t in tests if core(t) in ('np.isfinite(%s.getValue())' % v, 'numpy.isfinite(%s.getValue())' % v, 'math.isfinite(%s.getValue())' % v)]
         last = k_(src(util.inline(stores[-1].value, defs))) if stores else None
         idv = None
         if stores and isinstance(stores[-1].targets[0].slice, ast.Name):
@@ -499,8 +512,9 @@ def check_parameter_values(ctx, rule='R13.5-initial-values'):
             problems.append('a non-finite value is stored as %s [%s]' % (last, desc))
         elif tests[fin[0]] == (not fin[0].startswith('not')) and last != '%s.getValue()' % v:
             problems.append('a finite value attribute is not what is stored (%s) [%s]' % (last, desc))
-    ctx.ob(rule, 'import_sbml_parameters', not problems, ctx.loc('sbmlutil', f),
-           'every global parameter gets its value attribute (0.0 only when that is not finite), whatever else the document says about it',
+    ctx.ob(rule, key, not problems, ctx.loc('sbmlutil', f),
+           'every global parameter gets its value attribute (0.0 only when that is not finite), whatever else the document says about it'
+           + (' - except a parameter known to be the variable of an assignment rule' if assignment_targets_free else ''),
            '; '.join(sorted(set(problems))[:3]))
 
 
